@@ -439,7 +439,7 @@ fn malformed(rng: &mut Rng, depth: u32, emit: &mut dyn FnMut(String)) {
 }
 
 pub fn generate(rng: &mut Rng, tier: Tier, emit: &mut dyn FnMut(String)) {
-    let scale: u64 = if tier == Tier::Quick { 1 } else { 20 };
+    let scale: u64 = if tier == Tier::Quick { 4 } else { 48 };
     let depth = if tier == Tier::Quick { 4 } else { 6 };
     exhaustive(tier, emit);
     // in-domain, type-directed
